@@ -5,7 +5,7 @@
 //! thread; the run ends with the shutdown signal. The H4 tracer (`humphrey_ws::verif::app_event`) records
 //! what the loop saw and did. Every scenario runs in a child process (`hv __c12child`) under a watchdog.
 //!
-//! Case line: `app <TAB> scenario <TAB> out`, `out = summary|h4log|execlog|frames|consumed|closed`.
+//! Case line: `app <TAB> scenario <TAB> out`, `out = summary|h4log|execlog|frames|consumed|closed|heartbeat`.
 //!
 //! scenario = `t=<handler threads>;p=<poll µs or none>;h=<interval ms>.<timeout ms> or -;ca=<0..3>;da=<0..1>;`
 //!            `ap=<0|1>;q=<0|1>;hs=<handlers>;cl=<client>/<client>/…;tl=<step>,<step>,…`
@@ -15,14 +15,21 @@
 //!             handler's behaviour then have no effect.
 //!   client  = items joined by `,` (`-` = none; the end of the list is the end of the connection = EOF):
 //!             `T<hex>` / `B<hex>` text / binary message in one frame, `f<k>T<hex>` in k fragments,
-//!             `g<k>T<hex>` in k fragments with a Ping and a pause after the first, `n` a moment at which
+//!             `g<k>T<hex>` in k fragments with a Ping and a pause after the first, `o<k>T<hex>` in k fragments
+//!             with an (unsolicited) Pong after the first, `n` a moment at which
 //!             nothing has arrived, `P<hex>` Ping, `O` Pong, `C<hex>` Close, `G` a frame with a reserved opcode,
-//!             `R` a frame cut short by the end of the connection
+//!             `R` a frame cut short by the end of the connection; `<n>x<item>+<item>+…` those items n times over
+//!             (run-length form for long streams: `4096xT61+n`)
 //!   step    = `<µs to sleep first>:<action>`, action = `c<i>` client i's stream is handed to the app,
 //!             `u<id>:T<hex>` / `u<id>:B<hex>` AsyncSender::send to client id (900 = nobody's address),
 //!             `bT<hex>` / `bB<hex>` AsyncSender::broadcast
 //!   ca: connect handler 0 nothing, 1 greets (unicast), 2 broadcasts, 3 both; da: disconnect handler 1 broadcasts;
-//!   ap: live scripted clients answer the server's Pings; q: wait until every client is gone before shutdown.
+//!   ap: where live scripted clients put their answers to the server's Pings - one digit for all clients or one
+//!       digit per client: 0 no answer, 1 at once (the Pong is the next thing the server reads), 2 before the first
+//!       frame of the client's next message, 3 after the first fragment of its next fragmented message, 4 before the
+//!       final fragment of its next fragmented message, 5 right after the last frame of its next message, 6 at once,
+//!       three Pongs in a row (2..5: one Pong answers all Pings received so far; a client whose stream has ended
+//!       answers nothing); q: wait until every client is gone before shutdown.
 //!   The message handler looks at the first payload byte modulo 8: 1 echo, 2 broadcast, 3 both, 6 two echoes,
 //!   7 echo after 1 ms, else nothing.
 //! h4log tokens (client id = port - 41000): `I<k1>.<k2>…` iteration start with the key order, `W0|W1` heartbeat
@@ -35,6 +42,8 @@
 //! frames: `<id>=<hex of write 1>.<hex of write 2>…` joined by `,`; consumed: ids whose script was read to its end;
 //! closed: ids whose scripted socket was closed (the stream dropped) before the loop was left.
 //! summary: `returned;exec=<handler runs>;data=<data frames written>;pings=<ping frames written>` or `WEDGED`.
+//! heartbeat (empty without `h=`): bounds on the loop's clock readings in ns since the run began, `;`-joined:
+//!   `w=<ping decisions>` and `<id>=<timeline of the client>` (entries joined by `.`; see `HbEv`, `WEv` below).
 use crate::c11::Ev;
 use crate::common::*;
 use humphrey::stream::{MockIo, Stream};
@@ -82,21 +91,65 @@ pub struct Sock {
     off: usize,
     nonblocking: AtomicBool,
     addr: SocketAddr,
-    autopong: bool,
+    id: usize,
+    /// where this client puts its answers to the server's Pings (`ap=` of the scenario, see the module text)
+    ap: u8,
+    /// Pings of the server not yet answered
+    pong_due: usize,
+    /// first octet of the frame delivered last
+    last_hdr: Option<u8>,
     shared: Arc<Mutex<SockShared>>,
 }
 
 impl Sock {
-    fn new(evs: Vec<Ev>, id: usize, autopong: bool) -> (Sock, Arc<Mutex<SockShared>>) {
+    fn new(evs: Vec<Ev>, id: usize, ap: u8) -> (Sock, Arc<Mutex<SockShared>>) {
         let shared = Arc::new(Mutex::new(SockShared { writes: Vec::new(), left: evs.len(), closed_in_loop: false }));
         let addr: SocketAddr = format!("127.0.0.1:{}", BASE_PORT as usize + id).parse().unwrap();
-        (Sock { evs: evs.into(), off: 0, nonblocking: AtomicBool::new(false), addr, autopong, shared: shared.clone() }, shared)
+        (
+            Sock { evs: evs.into(), off: 0, nonblocking: AtomicBool::new(false), addr, id, ap, pong_due: 0, last_hdr: None, shared: shared.clone() },
+            shared,
+        )
+    }
+
+    fn pong_frame() -> Ev {
+        Ev::Data(cframe(true, 10, [9, 8, 7, 6], &[]))
+    }
+
+    /// The client is between two frames and owes an answer to a Ping: is this the place where it (policy `ap`)
+    /// puts its Pong? Positions are relative to the frames sent after the Ping was received (`last_hdr` is
+    /// forgotten when a Ping arrives). Only a client that has something left to send answers.
+    fn answer_here(&self) -> bool {
+        if self.pong_due == 0 || self.off != 0 || self.evs.is_empty() {
+            return false;
+        }
+        // first octet of the frame that is the very next thing on the wire, if a frame is
+        let next: Option<u8> = match self.evs.front() {
+            Some(Ev::Data(d)) => d.first().copied(),
+            _ => None,
+        };
+        let last = self.last_hdr;
+        match self.ap {
+            // before the first frame of the next message
+            2 => next.map(|b| matches!(b & 0x0f, 1 | 2)).unwrap_or(false),
+            // after the first fragment of a fragmented message
+            3 => next.map(|b| b & 0x0f == 0).unwrap_or(false) && last.map(|h| matches!(h & 0x8f, 1 | 2)).unwrap_or(false),
+            // before the final fragment of a fragmented message
+            4 => next.map(|b| b & 0x8f == 0x80).unwrap_or(false),
+            // right after the last frame of a message
+            5 => last.map(|h| matches!(h & 0x0f, 0 | 1 | 2) && h & 0x80 != 0).unwrap_or(false),
+            _ => false,
+        }
     }
 }
 
 impl Read for Sock {
     fn read(&mut self, buf: &mut [u8]) -> std::io::Result<usize> {
+        hb_observe();
         loop {
+            if self.answer_here() {
+                self.pong_due = 0;
+                self.evs.push_front(Sock::pong_frame());
+            }
             let r = match self.evs.front() {
                 None => Some(Ok(0)),
                 Some(Ev::NotYet) => {
@@ -112,8 +165,14 @@ impl Read for Sock {
                     buf[..n].copy_from_slice(&d[self.off..self.off + n]);
                     self.off += n;
                     if self.off >= d.len() {
+                        let hdr = d.first().copied();
                         self.evs.pop_front();
                         self.off = 0;
+                        self.last_hdr = hdr;
+                        if hdr.map(|h| h & 0x0f == 10).unwrap_or(false) {
+                            // the last octet of a Pong has been handed to the server
+                            hb_life(self.id);
+                        }
                     }
                     Some(Ok(n))
                 }
@@ -128,11 +187,26 @@ impl Read for Sock {
 
 impl Write for Sock {
     fn write(&mut self, buf: &[u8]) -> std::io::Result<usize> {
+        hb_observe();
         let mut sh = self.shared.lock().unwrap();
         sh.writes.push(buf.to_vec());
         // a client that is still there answers a Ping (only between frames)
-        if self.autopong && buf.first() == Some(&0x89) && self.off == 0 && !self.evs.is_empty() {
-            self.evs.push_front(Ev::Data(cframe(true, 10, [9, 8, 7, 6], &[])));
+        if self.ap != 0 && buf.first() == Some(&0x89) && self.off == 0 && !self.evs.is_empty() {
+            match self.ap {
+                // at once: the Pong is the next thing the server reads
+                1 => self.evs.push_front(Sock::pong_frame()),
+                // at once, several in a row
+                6 => {
+                    for _ in 0..3 {
+                        self.evs.push_front(Sock::pong_frame());
+                    }
+                }
+                // at a place of its frame stream chosen by the policy (see `answer_here`)
+                _ => {
+                    self.pong_due += 1;
+                    self.last_hdr = None;
+                }
+            }
             sh.left = self.evs.len();
         }
         Ok(buf.len())
@@ -182,11 +256,164 @@ fn cframe(fin: bool, opcode: u8, key: [u8; 4], payload: &[u8]) -> Vec<u8> {
     v
 }
 
+/* ---------------------------------------------------------------- the heartbeat timeline */
+
+/// What the harness can say about the clock readings of the loop, in ns since the run started (the resolution of
+/// `Instant`, so that comparisons with the configured durations are exact). The loop reads
+/// `Instant::now()` itself; every reading lies between two observations the harness makes on the same thread
+/// (a `read`/`write` on a scripted socket, a tracer event), so each entry is a sound bound, whatever the scheduler
+/// does:
+///  * `L<lo>-<hi>` a sign of life of the client: its stream was created (`last_pong` initialised) or the last octet
+///    of a Pong frame was handed to the server; the reading stored in `last_pong` lies in [lo, hi] (hi = the next
+///    observation on the loop's thread);
+///  * `A<t>` the client's poll ended with "nothing" at t and the client was NOT found timed out afterwards (the
+///    heartbeat check was passed at a reading >= t); consecutive ones are folded into the last;
+///  * `T<t>` the client was found timed out, reported at t (the check happened at a reading <= t);
+///  * `w=`: `P<i>-<t>` the loop decided to ping in the iteration that started at i, reported at t (`last_ping` was
+///    set in between; the first entry stands for the initial `last_ping`: thread spawn .. first event);
+///    `Q<i>` it decided not to, in an iteration that started at i (consecutive ones folded into the last).
+enum HbEv {
+    Life(u64, u64),
+    Alive(u64),
+    Timed(u64),
+}
+
+enum WEv {
+    P(u64, u64),
+    Q(u64),
+}
+
+struct HbLog {
+    t0: Instant,
+    pending: Vec<(usize, usize)>,
+    per: std::collections::BTreeMap<usize, Vec<HbEv>>,
+    check: Option<(usize, u64)>,
+    w: Vec<WEv>,
+    spawned: u64,
+    iter_start: u64,
+    first: bool,
+}
+
+static HB: Mutex<Option<HbLog>> = Mutex::new(None);
+
+fn hb_with<T>(f: impl FnOnce(&mut HbLog, u64) -> T) -> Option<T> {
+    let mut g = HB.lock().unwrap_or_else(|e| e.into_inner());
+    g.as_mut().map(|h| {
+        let now = h.t0.elapsed().as_nanos() as u64;
+        f(h, now)
+    })
+}
+
+impl HbLog {
+    fn observe(&mut self, now: u64) {
+        for (c, k) in self.pending.drain(..) {
+            if let Some(HbEv::Life(_, hi)) = self.per.get_mut(&c).and_then(|v| v.get_mut(k)) {
+                *hi = now;
+            }
+        }
+    }
+    fn alive(&mut self, c: usize, t: u64) {
+        let v = self.per.entry(c).or_default();
+        if let Some(HbEv::Alive(x)) = v.last_mut() {
+            *x = t;
+        } else {
+            v.push(HbEv::Alive(t));
+        }
+    }
+}
+
+/// An observation on the loop's thread: whatever clock reading the loop took before lies before now.
+fn hb_observe() {
+    hb_with(|h, now| h.observe(now));
+}
+
+/// The last octet of a Pong frame of client `c` has been handed out.
+fn hb_life(c: usize) {
+    hb_with(|h, now| {
+        let v = h.per.entry(c).or_default();
+        v.push(HbEv::Life(now, u64::MAX));
+        let k = v.len() - 1;
+        h.pending.push((c, k));
+    });
+}
+
+fn hb_now() -> u64 {
+    hb_with(|_, now| now).unwrap_or(0)
+}
+
+/// The stream of client `c` was created between lo and hi.
+fn hb_created(c: usize, lo: u64, hi: u64) {
+    hb_with(|h, _| h.per.entry(c).or_default().push(HbEv::Life(lo, hi)));
+}
+
+fn hb_event(ev: &AppEvent) {
+    hb_with(|h, now| {
+        h.observe(now);
+        if let Some((c, t)) = h.check.take() {
+            let timed_out = matches!(ev, AppEvent::TimedOut(a) if id_of(a) == c);
+            if !timed_out {
+                h.alive(c, t);
+            }
+        }
+        match ev {
+            AppEvent::IterStart(_) => {
+                if h.first {
+                    h.first = false;
+                    h.w.push(WEv::P(h.spawned, now));
+                }
+                h.iter_start = now;
+            }
+            AppEvent::WillPing(true) => h.w.push(WEv::P(h.iter_start, now)),
+            AppEvent::WillPing(false) => {
+                let i = h.iter_start;
+                if let Some(WEv::Q(x)) = h.w.last_mut() {
+                    *x = i;
+                } else {
+                    h.w.push(WEv::Q(i));
+                }
+            }
+            AppEvent::Recv(a, RecvSummary::None) => h.check = Some((id_of(a), now)),
+            AppEvent::TimedOut(a) => h.per.entry(id_of(a)).or_default().push(HbEv::Timed(now)),
+            _ => {}
+        }
+    });
+}
+
+fn hb_text(h: &HbLog, end: u64) -> String {
+    let mut parts = vec![format!(
+        "w={}",
+        h.w.iter()
+            .map(|e| match e {
+                WEv::P(i, t) => format!("P{}-{}", i, t),
+                WEv::Q(i) => format!("Q{}", i),
+            })
+            .collect::<Vec<_>>()
+            .join(".")
+    )];
+    for (c, v) in &h.per {
+        parts.push(format!(
+            "{}={}",
+            c,
+            v.iter()
+                .map(|e| match e {
+                    HbEv::Life(lo, hi) => format!("L{}-{}", lo, (*hi).min(end)),
+                    HbEv::Alive(t) => format!("A{}", t),
+                    HbEv::Timed(t) => format!("T{}", t),
+                })
+                .collect::<Vec<_>>()
+                .join(".")
+        ));
+    }
+    parts.join(";")
+}
+
 /* ---------------------------------------------------------------- scenarios */
 
 #[derive(Clone, Debug)]
 enum It {
-    Msg { text: bool, frags: usize, ping: bool, payload: Vec<u8> },
+    Msg { text: bool, frags: usize, ping: bool, pong: bool, payload: Vec<u8> },
+    /// the items, so many times over (`<n>x<item>+<item>…`)
+    Rep(usize, Vec<It>),
     NotYet,
     Ping(Vec<u8>),
     Pong,
@@ -209,7 +436,8 @@ struct Scn {
     hb: Option<(u64, u64)>,
     ca: u8,
     da: u8,
-    ap: bool,
+    /// per client: where it puts its answers to the server's Pings (0 = it does not answer)
+    ap: Vec<u8>,
     wait_gone: bool,
     /// the handlers registered on the app: bit 0 connect, bit 1 message, bit 2 disconnect
     hs: u8,
@@ -264,13 +492,14 @@ fn tb(text: bool) -> char {
 
 fn it_text(i: &It) -> String {
     match i {
-        It::Msg { text, frags, ping, payload } => {
+        It::Msg { text, frags, ping, pong, payload } => {
             if *frags <= 1 {
                 format!("{}{}", tb(*text), hex(payload))
             } else {
-                format!("{}{}{}{}", if *ping { 'g' } else { 'f' }, frags, tb(*text), hex(payload))
+                format!("{}{}{}{}", if *ping { 'g' } else if *pong { 'o' } else { 'f' }, frags, tb(*text), hex(payload))
             }
         }
+        It::Rep(n, items) => format!("{}x{}", n, items.iter().map(it_text).collect::<Vec<_>>().join("+")),
         It::NotYet => "n".into(),
         It::Ping(p) => format!("P{}", hex(p)),
         It::Pong => "O".into(),
@@ -296,7 +525,7 @@ fn scn_text(s: &Scn) -> String {
         s.hb.map(|(a, b)| format!("{}.{}", a, b)).unwrap_or_else(|| "-".into()),
         s.ca,
         s.da,
-        s.ap as u8,
+        ap_text(&s.ap),
         s.wait_gone as u8,
         hs_text(s.hs),
         s.clients
@@ -306,6 +535,27 @@ fn scn_text(s: &Scn) -> String {
             .join("/"),
         if s.tl.is_empty() { "-".into() } else { s.tl.iter().map(|(d, a)| format!("{}:{}", d, act_text(a))).collect::<Vec<_>>().join(",") }
     )
+}
+
+/// One digit when all clients have the same policy, else one digit per client.
+fn ap_text(ap: &[u8]) -> String {
+    match ap.first() {
+        None => "0".into(),
+        Some(a) if ap.iter().all(|x| x == a) => a.to_string(),
+        _ => ap.iter().map(|x| x.to_string()).collect(),
+    }
+}
+
+fn parse_ap(v: &str, nclients: usize) -> Option<Vec<u8>> {
+    let d: Vec<u8> = v.chars().map(|c| c.to_digit(10).map(|x| x as u8)).collect::<Option<Vec<_>>>()?;
+    if d.iter().any(|x| *x > 6) {
+        return None;
+    }
+    match d.len() {
+        1 => Some(vec![d[0]; nclients]),
+        n if n == nclients => Some(d),
+        _ => None,
+    }
 }
 
 fn parse_tb(s: &str) -> Option<(bool, Vec<u8>)> {
@@ -320,15 +570,23 @@ fn parse_tb(s: &str) -> Option<(bool, Vec<u8>)> {
 fn parse_it(s: &str) -> Option<It> {
     let c = s.chars().next()?;
     match c {
+        '0'..='9' => {
+            let (n, items) = s.split_once('x')?;
+            let items = items.split('+').map(parse_it).collect::<Option<Vec<_>>>()?;
+            if items.iter().any(|i| matches!(i, It::Rep(..))) {
+                return None;
+            }
+            Some(It::Rep(n.parse().ok()?, items))
+        }
         'T' | 'B' => {
             let (text, payload) = parse_tb(s)?;
-            Some(It::Msg { text, frags: 1, ping: false, payload })
+            Some(It::Msg { text, frags: 1, ping: false, pong: false, payload })
         }
-        'f' | 'g' => {
+        'f' | 'g' | 'o' => {
             let pos = s[1..].find(|x: char| x == 'T' || x == 'B')? + 1;
             let frags: usize = s[1..pos].parse().ok()?;
             let (text, payload) = parse_tb(&s[pos..])?;
-            Some(It::Msg { text, frags, ping: c == 'g', payload })
+            Some(It::Msg { text, frags, ping: c == 'g', pong: c == 'o', payload })
         }
         'n' => Some(It::NotYet),
         'P' => Some(It::Ping(unhex(&s[1..]))),
@@ -393,7 +651,7 @@ fn parse_scn(s: &str) -> Option<Scn> {
         },
         ca: kv.get("ca")?.parse().ok()?,
         da: kv.get("da")?.parse().ok()?,
-        ap: *kv.get("ap")? == "1",
+        ap: parse_ap(kv.get("ap")?, clients.len())?,
         wait_gone: *kv.get("q")? == "1",
         hs: match kv.get("hs") {
             None => HS_ALL,
@@ -407,36 +665,59 @@ fn parse_scn(s: &str) -> Option<Scn> {
 /// The events of a client's socket.
 fn client_events(items: &[It]) -> Vec<Ev> {
     let mut evs = Vec::new();
-    for (n, it) in items.iter().enumerate() {
-        let key = [(n as u8).wrapping_mul(17).wrapping_add(1), 0xa5, n as u8, 0x3c];
+    let mut n = 0usize;
+    for it in items {
         match it {
-            It::Msg { text, frags, ping, payload } => {
-                let op = if *text { 1 } else { 2 };
-                if *frags <= 1 {
-                    evs.push(Ev::Data(cframe(true, op, key, payload)));
-                } else {
-                    let k = *frags;
-                    let size = (payload.len() + k - 1) / k;
-                    for j in 0..k {
-                        let lo = (j * size).min(payload.len());
-                        let hi = ((j + 1) * size).min(payload.len());
-                        evs.push(Ev::Data(cframe(j == k - 1, if j == 0 { op } else { 0 }, key, &payload[lo..hi])));
-                        if j == 0 && *ping {
-                            evs.push(Ev::Data(cframe(true, 9, key, &[0x70])));
-                            evs.push(Ev::NotYet);
-                        }
+            It::Rep(k, sub) => {
+                for _ in 0..*k {
+                    for it in sub {
+                        item_events(it, n, &mut evs);
+                        n += 1;
                     }
                 }
             }
-            It::NotYet => evs.push(Ev::NotYet),
-            It::Ping(p) => evs.push(Ev::Data(cframe(true, 9, key, p))),
-            It::Pong => evs.push(Ev::Data(cframe(true, 10, key, &[]))),
-            It::Close(p) => evs.push(Ev::Data(cframe(true, 8, key, p))),
-            It::Garbage => evs.push(Ev::Data(vec![0x83, 0x00])),
-            It::Trunc => evs.push(Ev::Data(vec![0x82, 0x85, 1, 2, 3, 4, 0x55])),
+            it => {
+                item_events(it, n, &mut evs);
+                n += 1;
+            }
         }
     }
     evs
+}
+
+fn item_events(it: &It, n: usize, evs: &mut Vec<Ev>) {
+    let key = [(n as u8).wrapping_mul(17).wrapping_add(1), 0xa5, n as u8, 0x3c];
+    match it {
+        It::Msg { text, frags, ping, pong, payload } => {
+            let op = if *text { 1 } else { 2 };
+            if *frags <= 1 {
+                evs.push(Ev::Data(cframe(true, op, key, payload)));
+            } else {
+                let k = *frags;
+                let size = (payload.len() + k - 1) / k;
+                for j in 0..k {
+                    let lo = (j * size).min(payload.len());
+                    let hi = ((j + 1) * size).min(payload.len());
+                    evs.push(Ev::Data(cframe(j == k - 1, if j == 0 { op } else { 0 }, key, &payload[lo..hi])));
+                    if j == 0 && *ping {
+                        evs.push(Ev::Data(cframe(true, 9, key, &[0x70])));
+                        evs.push(Ev::NotYet);
+                    }
+                    if j == 0 && *pong {
+                        // an unsolicited Pong between the fragments
+                        evs.push(Ev::Data(cframe(true, 10, key, &[])));
+                    }
+                }
+            }
+        }
+        It::Rep(..) => {}
+        It::NotYet => evs.push(Ev::NotYet),
+        It::Ping(p) => evs.push(Ev::Data(cframe(true, 9, key, p))),
+        It::Pong => evs.push(Ev::Data(cframe(true, 10, key, &[]))),
+        It::Close(p) => evs.push(Ev::Data(cframe(true, 8, key, p))),
+        It::Garbage => evs.push(Ev::Data(vec![0x83, 0x00])),
+        It::Trunc => evs.push(Ev::Data(vec![0x82, 0x85, 1, 2, 3, 4, 0x55])),
+    }
 }
 
 /* ---------------------------------------------------------------- the tracer */
@@ -525,6 +806,7 @@ impl Trace {
     }
     fn on(&mut self, ev: AppEvent) {
         use AppEvent::*;
+        hb_event(&ev);
         if self.log.len() + self.cur.len() > 60_000 {
             self.overflow = true;
             return;
@@ -706,6 +988,17 @@ const RESTLESS: u64 = 400;
 fn run_scn(s: &Scn) -> RunOut {
     LOOP_LEFT.store(false, Ordering::SeqCst);
     *TRACE.lock().unwrap_or_else(|e| e.into_inner()) = Some(Trace::new());
+    // the heartbeat timeline is kept only when the app has a heartbeat
+    *HB.lock().unwrap_or_else(|e| e.into_inner()) = s.hb.map(|_| HbLog {
+        t0: Instant::now(),
+        pending: Vec::new(),
+        per: Default::default(),
+        check: None,
+        w: Vec::new(),
+        spawned: 0,
+        iter_start: 0,
+        first: true,
+    });
     install_app_sink(Box::new(|_seq, ev| {
         if let Some(t) = TRACE.lock().unwrap_or_else(|e| e.into_inner()).as_mut() {
             t.on(ev)
@@ -750,7 +1043,7 @@ fn run_scn(s: &Scn) -> RunOut {
     let mut socks: Vec<Option<Sock>> = Vec::new();
     let mut shared: Vec<Arc<Mutex<SockShared>>> = Vec::new();
     for (i, c) in s.clients.iter().enumerate() {
-        let (sock, sh) = Sock::new(client_events(c), i, s.ap);
+        let (sock, sh) = Sock::new(client_events(c), i, s.ap.get(i).copied().unwrap_or(0));
         socks.push(Some(sock));
         shared.push(sh);
     }
@@ -763,7 +1056,9 @@ fn run_scn(s: &Scn) -> RunOut {
         match a {
             Act::Connect(i) => {
                 if let Some(sock) = socks.get_mut(*i).and_then(|x| x.take()) {
+                    let lo = hb_now();
                     let ws = WebsocketStream::new(Stream::Mock(Box::new(sock)));
+                    hb_created(*i, lo, hb_now());
                     let _ = hook.lock().unwrap().send(ws);
                     connected.push(*i);
                 }
@@ -775,7 +1070,11 @@ fn run_scn(s: &Scn) -> RunOut {
     // let the app work until nothing moves any more
     with_trace(|t| t.quiet_iters = 0);
     let settled = |need_gone: bool| -> bool {
-        let consumed = connected.iter().all(|i| shared[*i].lock().unwrap().left == 0);
+        // a script is over when it has been read to its end or its socket has been closed (client removed)
+        let consumed = connected.iter().all(|i| {
+            let sh = shared[*i].lock().unwrap();
+            sh.left == 0 || sh.closed_in_loop
+        });
         let execs = state.log.lock().unwrap().len() as u64;
         with_trace(|t| {
             let fed = consumed && connected.iter().all(|i| t.admitted.contains(i)) && t.dispatched == execs;
@@ -788,25 +1087,35 @@ fn run_scn(s: &Scn) -> RunOut {
         .unwrap_or(true)
     };
     let gone_cap = s.hb.map(|(_, t)| t + 150).unwrap_or(0);
+    // scripts paced against a long heartbeat timeout take several timeouts to play
+    // (the caps only bound runs that do not come to rest; they are generous because on a heavily loaded machine
+    // the loop's thread may not run for a second or more)
+    let play_cap = s.hb.map(|(_, t)| 4 * t).unwrap_or(0).clamp(4000, 8000);
     if s.wait_gone && s.hb.is_some() {
-        if !wait_until(Duration::from_millis(gone_cap.min(1500)), || settled(true)) {
+        if !wait_until(Duration::from_millis(play_cap), || settled(false)) || !wait_until(Duration::from_millis(gone_cap.min(1500)), || settled(true)) {
             wait_until(Duration::from_millis(300), || settled(false));
         }
     } else {
-        wait_until(Duration::from_millis(1500), || settled(false));
+        wait_until(Duration::from_millis(play_cap), || settled(false));
     }
     let _ = shutdown_tx.send(());
     let returned = done_rx.recv_timeout(WATCHDOG).is_ok();
     if returned {
         let _ = helper.join();
         // handlers still queued when the loop was left run now
-        wait_until(Duration::from_millis(1000), || {
+        wait_until(WATCHDOG, || {
             let execs = state.log.lock().unwrap().len() as u64;
             with_trace(|t| t.dispatched == execs).unwrap_or(true)
         });
         std::thread::sleep(Duration::from_micros(300));
     }
     remove_app_sink();
+    let hbt = {
+        let mut g = HB.lock().unwrap_or_else(|e| e.into_inner());
+        let t = g.as_ref().map(|h| hb_text(h, h.t0.elapsed().as_nanos() as u64)).unwrap_or_default();
+        *g = None;
+        t
+    };
     let overflow = with_trace(|t| t.overflow).unwrap_or(false);
     let log = {
         let mut g = TRACE.lock().unwrap_or_else(|e| e.into_inner());
@@ -840,7 +1149,7 @@ fn run_scn(s: &Scn) -> RunOut {
     }
     let summary = if returned { format!("returned;exec={};data={};pings={}", exec.len(), data, pings) } else { "WEDGED".to_string() };
     RunOut {
-        out: format!("{}|{}|{}|{}|{}|{}", summary, log, exec.join(" "), frames.join(","), consumed.join(","), closed.join(",")),
+        out: format!("{}|{}|{}|{}|{}|{}|{}", summary, log, exec.join(" "), frames.join(","), consumed.join(","), closed.join(","), hbt),
         clean: returned,
     }
 }
@@ -1032,7 +1341,7 @@ fn run_real(threads: usize, poll: u64, n: usize, m: usize, hs: u8) -> RunOut {
     let returned = done_rx.recv_timeout(WATCHDOG).is_ok();
     if returned {
         let _ = helper.join();
-        wait_until(Duration::from_millis(1000), || {
+        wait_until(WATCHDOG, || {
             let execs = state.log.lock().unwrap().len() as u64;
             with_trace(|t| t.dispatched == execs).unwrap_or(true)
         });
@@ -1230,7 +1539,9 @@ fn gen_client(rng: &mut Rng, hb: bool) -> Vec<It> {
                 let text = rng.chance(2, 3);
                 let payload = gen_payload(rng, text);
                 let frags = if rng.chance(1, 4) { rng.range(2, 4) as usize } else { 1 };
-                v.push(It::Msg { text, frags, ping: frags > 1 && rng.chance(1, 3), payload });
+                let ping = frags > 1 && rng.chance(1, 3);
+                let pong = frags > 1 && !ping && rng.chance(1, 4);
+                v.push(It::Msg { text, frags, ping, pong, payload });
             }
         }
     }
@@ -1305,12 +1616,239 @@ fn gen_scn(rng: &mut Rng) -> Scn {
         hb,
         ca: rng.below(4) as u8,
         da: rng.below(2) as u8,
-        ap: hb.is_some() && rng.chance(3, 4),
+        ap: if hb.is_some() && rng.chance(3, 4) {
+            // live clients answer the Pings: at once, or each at a place of its own frame stream
+            if rng.chance(1, 2) { vec![1; nclients] } else { (0..nclients).map(|_| rng.below(7) as u8).collect() }
+        } else {
+            vec![0; nclients]
+        },
         wait_gone: hb.is_some() && rng.chance(2, 3),
         hs: gen_hs(rng),
         clients,
         tl,
     }
+}
+
+
+/* ---------------------------------------------------------------- heartbeat-paced, many-client and long-run families */
+
+/// Sizes and counts "well above small": around powers of two and typical limits.
+const COUNTS_QUICK: &[usize] = &[100, 128, 255, 256, 257, 1000, 1024, 2048, 4096];
+const COUNTS_THOROUGH: &[usize] = &[100, 127, 128, 129, 255, 256, 257, 511, 512, 513, 1000, 1023, 1024, 1025, 2048, 4096, 8192];
+
+fn small_text(rng: &mut Rng, echo: bool, min: usize) -> Vec<u8> {
+    // '`' = 96 = 0 mod 8: the handler does nothing; 'a' = 1 mod 8: echo
+    let n = rng.range(min as u64, (min + 6) as u64) as usize;
+    ascii(rng, if echo { b'a' } else { b'`' }, n)
+}
+
+/// A client that lives through several heartbeat timeouts: a unit of its frame stream repeated for
+/// `mult/2` timeouts, one unit every `period` µs (the app sleeps `poll` µs per iteration; `n` = one iteration in
+/// which nothing arrives). Where its Pongs go is the policy `ap` (answers to the server's Pings, placed by the
+/// socket) or, for `ap` = 0, the unit itself (unsolicited Pongs at fixed places; or none at all: a silent client).
+fn hb_client(rng: &mut Rng, ap: u8, poll: u64, interval_ms: u64, timeout_ms: u64) -> Vec<It> {
+    let late = rng.chance(1, 10);
+    let period = if late {
+        // Pongs further apart than the timeout: such a client IS timed out
+        timeout_ms * 1250
+    } else {
+        *rng.pick(&[interval_ms * 500, interval_ms * 1000, interval_ms * 2000, timeout_ms * 400])
+    };
+    let g = ((period / poll.max(1)).max(2) - 1) as usize;
+    let frag = |rng: &mut Rng, pong: bool| -> It {
+        let k = rng.range(2, 4) as usize;
+        let echo = rng.chance(1, 4);
+        It::Msg { text: rng.chance(3, 4), frags: k, ping: false, pong, payload: small_text(rng, echo, k) }
+    };
+    let whole = |rng: &mut Rng| -> It {
+        let echo = rng.chance(1, 4);
+        It::Msg { text: rng.chance(3, 4), frags: 1, ping: false, pong: false, payload: small_text(rng, echo, 1) }
+    };
+    let mut unit: Vec<It> = match ap {
+        0 => match rng.below(8) {
+            0 => vec![],                              // silent
+            1 => vec![It::Pong],                      // alone
+            2 => vec![It::Pong, whole(rng)],          // before a message
+            3 | 4 => vec![frag(rng, true)],           // between the fragments
+            5 => vec![whole(rng), It::Pong],          // after a message
+            6 => vec![frag(rng, false), It::Pong],    // after the last fragment
+            _ => vec![It::Pong, It::Pong, It::Pong],  // several in a row
+        },
+        1 | 6 => match rng.below(3) {
+            0 => vec![],
+            1 => vec![whole(rng)],
+            _ => vec![frag(rng, false)],
+        },
+        3 | 4 => vec![frag(rng, false)],
+        _ => {
+            if rng.chance(1, 2) { vec![whole(rng)] } else { vec![frag(rng, false)] }
+        }
+    };
+    for _ in 0..g {
+        unit.push(It::NotYet);
+    }
+    let mult = *rng.pick(&[3u64, 5, 7]);
+    let k = (mult * timeout_ms * 1000 / 2 / ((g as u64 + 1) * poll.max(1)) + 1) as usize;
+    let mut v = vec![It::Rep(k, unit)];
+    match rng.below(3) {
+        0 => {}
+        1 => v.push(It::Close(vec![])),
+        _ => v.push(It::Close(vec![3, 232])),
+    }
+    v
+}
+
+fn gen_hb_scn(rng: &mut Rng, thorough: bool, nclients: usize) -> Scn {
+    let poll = *rng.pick(&[200u64, 500, 1000, 2000]);
+    let interval = *rng.pick(&[1u64, 2, 3, 5]);
+    let timeout = if nclients > 8 {
+        *rng.pick(&[6u64, 8, 10])
+    } else if thorough && rng.chance(1, 40) {
+        *rng.pick(&[64u64, 100, 250])
+    } else {
+        *rng.pick(&[4u64, 6, 8, 10, 16, 25, 40])
+    };
+    let ap: Vec<u8> = (0..nclients).map(|_| rng.below(7) as u8).collect();
+    let clients: Vec<Vec<It>> = ap.iter().map(|a| hb_client(rng, *a, poll, interval, timeout)).collect();
+    let burst = rng.chance(1, 2);
+    let mut tl: Vec<(u64, Act)> = Vec::new();
+    for i in 0..nclients {
+        tl.push((if burst { 0 } else { rng.range(0, 1500) }, Act::Connect(i)));
+    }
+    if rng.chance(1, 3) {
+        tl.push((timeout * 500, Act::Broadcast(true, ascii(rng, b'x', 3))));
+    }
+    Scn {
+        threads: if rng.chance(1, 3) { 1 } else { rng.range(1, 4) as usize },
+        poll: Some(poll),
+        hb: Some((interval, timeout)),
+        ca: rng.below(4) as u8,
+        da: rng.below(2) as u8,
+        ap,
+        wait_gone: rng.chance(1, 2),
+        hs: gen_hs(rng),
+        clients,
+        tl,
+    }
+}
+
+/// MANY clients with short scripts: connected at once or in groups, broadcasts and unicasts from outside, a few
+/// broadcasting handlers (every broadcast costs one frame per client).
+fn gen_many_scn(rng: &mut Rng, nclients: usize, hb: bool) -> Scn {
+    let few = |rng: &mut Rng| rng.chance(3, (nclients as u64).max(3));
+    let clients: Vec<Vec<It>> = (0..nclients)
+        .map(|_| {
+            let mut v = Vec::new();
+            for _ in 0..rng.below(4) {
+                match rng.below(6) {
+                    0 => v.push(It::NotYet),
+                    1 => v.push(It::Ping(vec![])),
+                    _ => {
+                        // first byte: 1 echo, 2 broadcast (rare), 0 nothing
+                        let first = if few(rng) { b'b' } else if rng.chance(1, 2) { b'a' } else { b'`' };
+                        let frags = if rng.chance(1, 5) { 2 } else { 1 };
+                        let n = rng.range(2, 5) as usize;
+                        v.push(It::Msg { text: true, frags, ping: false, pong: false, payload: ascii(rng, first, n) });
+                    }
+                }
+            }
+            match rng.below(if hb { 5 } else { 8 }) {
+                0 | 1 => {}
+                2 => v.push(It::Garbage),
+                _ => v.push(It::Close(if rng.chance(1, 2) { vec![3, 232] } else { vec![] })),
+            }
+            v
+        })
+        .collect();
+    let mut tl: Vec<(u64, Act)> = Vec::new();
+    let group = *rng.pick(&[1usize, 7, 64, 100_000]);
+    for i in 0..nclients {
+        tl.push((if i % group == 0 && i > 0 { rng.range(100, 1500) } else { 0 }, Act::Connect(i)));
+        if few(rng) {
+            if rng.chance(1, 2) {
+                let target = if rng.chance(1, 6) { 20000 } else { rng.below(nclients as u64) as usize };
+                tl.push((0, Act::Unicast(target, true, ascii(rng, b'x', 3))));
+            } else {
+                tl.push((0, Act::Broadcast(rng.chance(1, 2), ascii(rng, b'x', 2))));
+            }
+        }
+    }
+    tl.push((rng.range(0, 2000), Act::Broadcast(true, ascii(rng, b'x', 4))));
+    Scn {
+        threads: *rng.pick(&[1usize, 2, 8]),
+        poll: *rng.pick(&[None, Some(0), Some(500), Some(2000)]),
+        hb: if hb { Some((rng.range(1, 3), rng.range(10, 25))) } else { None },
+        // the connect handler greets; it broadcasts only when that stays affordable (n frames per client)
+        ca: if nclients <= 64 { rng.below(4) as u8 } else { rng.below(2) as u8 },
+        da: if nclients <= 64 { rng.below(2) as u8 } else { 0 },
+        ap: if hb { (0..nclients).map(|_| rng.below(7) as u8).collect() } else { vec![0; nclients] },
+        wait_gone: hb && rng.chance(1, 2),
+        hs: gen_hs(rng),
+        clients,
+        tl,
+    }
+}
+
+/// LONG runs: one to three clients; `count` messages, each in an iteration of its own (`per_poll` = 1) or many of
+/// them available in one poll, or `count` iterations in which nothing but the heartbeat happens.
+fn gen_long_scn(rng: &mut Rng, count: usize, kind: u64) -> Scn {
+    let nclients = rng.range(1, 3) as usize;
+    let hb = kind == 2 || rng.chance(1, 4);
+    let clients: Vec<Vec<It>> = (0..nclients)
+        .map(|c| {
+            let n = if c == 0 { count } else { count / 8 + 1 };
+            let echo = rng.chance(1, 3);
+            let m = It::Msg { text: rng.chance(1, 2), frags: 1, ping: false, pong: false, payload: small_text(rng, echo, 1) };
+            let f = It::Msg { text: true, frags: 2, ping: false, pong: rng.chance(1, 2), payload: small_text(rng, false, 2) };
+            let mut v = match kind {
+                // one message per iteration
+                0 => vec![It::Rep(n, vec![m, It::NotYet])],
+                // all of them available in one poll (every 16th fragmented)
+                1 => vec![It::Rep(n / 16 + 1, vec![m.clone(), m.clone(), m.clone(), f, m.clone(), m.clone(), m.clone(), m.clone(), m.clone(), m.clone(), m.clone(), m.clone(), m.clone(), m.clone(), m.clone(), m])],
+                // iterations in which nothing arrives
+                _ => vec![It::Rep(n, vec![It::NotYet]), m],
+            };
+            if rng.chance(1, 2) {
+                v.push(It::Close(vec![]));
+            }
+            v
+        })
+        .collect();
+    let mut tl: Vec<(u64, Act)> = (0..nclients).map(|i| (0, Act::Connect(i))).collect();
+    tl.push((300, Act::Broadcast(true, ascii(rng, b'x', 3))));
+    Scn {
+        threads: *rng.pick(&[1usize, 1, 4]),
+        poll: if kind == 2 { Some(*rng.pick(&[0u64, 10, 50])) } else { *rng.pick(&[None, Some(0), Some(10)]) },
+        hb: if hb { Some((rng.range(1, 3), *rng.pick(&[8u64, 16, 25]))) } else { None },
+        ca: rng.below(2) as u8,
+        da: 0,
+        ap: if hb { (0..nclients).map(|_| *rng.pick(&[1u8, 1, 2, 3, 5, 6])).collect() } else { vec![0; nclients] },
+        wait_gone: false,
+        hs: if rng.chance(1, 2) { HS_ALL } else { gen_hs(rng) },
+        clients,
+        tl,
+    }
+}
+
+/// Heartbeat situations written down: one client per place at which a Pong can stand in a frame stream, each
+/// living through several timeouts; silent clients; a client whose Pongs come too late.
+fn directed_heartbeat() -> Vec<String> {
+    let mut v: Vec<String> = Vec::new();
+    // answers to the server's Pings, placed by the socket: ap = 1 at once, 2 before the next message, 3 after the
+    // first fragment, 4 before the final fragment, 5 after the last frame of a message, 6 three at once
+    for (ap, unit) in [(1, "n+n+n"), (1, "T6061+n+n"), (2, "T6061+n+n"), (2, "f3T606162+n+n"), (3, "f2T6061+n+n"), (3, "f4T60616263+n+n"), (4, "f3T606162+n+n"), (5, "T6061+n+n"), (5, "f2T6061+n+n"), (6, "f2T6161+n+n")] {
+        v.push(format!("t=1;p=500;h=1.8;ca=0;da=1;ap={};q=0;hs=cmd;cl=40x{},C;tl=0:c0", ap, unit));
+    }
+    // unsolicited Pongs at fixed places of the stream (the client does not react to Pings)
+    for unit in ["O+n+n+n", "O+T6061+n+n", "o2T6061+n+n", "o4T60616263+n+n", "T6061+O+n+n", "f2T6061+O+n+n", "O+O+O+n+n"] {
+        v.push(format!("t=2;p=500;h=2.8;ca=1;da=1;ap=0;q=0;hs=cmd;cl=40x{},C03e8;tl=0:c0", unit));
+    }
+    // silent clients (messages, but no Pong ever) are timed out after the timeout; a live one beside them is not
+    v.push("t=1;p=500;h=1.8;ca=0;da=1;ap=0;q=1;hs=cmd;cl=60xn/60xT60+n/60xo2T6061+n;tl=0:c0,0:c1,0:c2".into());
+    v.push("t=1;p=1000;h=2.10;ca=0;da=0;ap=030;q=1;hs=md;cl=40xf2T6061+n/40xf2T6061+n/40xT6061+n;tl=0:c0,0:c1,0:c2".into());
+    // Pongs further apart than the timeout
+    v.push("t=1;p=500;h=1.6;ca=0;da=1;ap=0;q=0;hs=cmd;cl=6xo2T6061+n+n+n+n+n+n+n+n+n+n+n+n+n+n+n+n+n+n+n+n;tl=0:c0".into());
+    v
 }
 
 /// Scenarios written down for the situations the property text singles out.
@@ -1339,6 +1877,7 @@ fn directed() -> Vec<String> {
     ]
     .into_iter()
     .chain(directed_handlers())
+    .chain(directed_heartbeat())
     .collect()
 }
 
@@ -1371,6 +1910,38 @@ pub fn gen(out: &mut Out, thorough: bool, seed: u64) {
     for _ in 0..n {
         jobs.push(("app".into(), scn_text(&gen_scn(&mut rng))));
     }
+    // heartbeat-paced clients, many clients, long runs (generators of their own: the random scenarios above stay
+    // what they were)
+    let mut rng2 = Rng::new(seed ^ 0xC12_0B);
+    let (n_hb, n_hb_many) = if thorough { (2500, 40) } else { (220, 4) };
+    for _ in 0..n_hb {
+        let k = rng2.range(1, 4) as usize;
+        jobs.push(("app".into(), scn_text(&gen_hb_scn(&mut rng2, thorough, k))));
+    }
+    for i in 0..n_hb_many {
+        jobs.push(("app".into(), scn_text(&gen_hb_scn(&mut rng2, thorough, if i % 4 == 3 { 200 } else { 50 }))));
+    }
+    let many: Vec<usize> = if thorough { vec![50, 50, 64, 100, 128, 200, 200, 255, 256, 257, 500, 1000] } else { vec![50, 200] };
+    for (i, n) in many.iter().enumerate() {
+        for hb in [false, true] {
+            if *n > 300 && hb {
+                continue;
+            }
+            let _ = i;
+            jobs.push(("app".into(), scn_text(&gen_many_scn(&mut rng2, *n, hb))));
+        }
+    }
+    let counts = if thorough { COUNTS_THOROUGH } else { COUNTS_QUICK };
+    for (i, c) in counts.iter().enumerate() {
+        for kind in 0..3u64 {
+            // quick: every count once, the kinds in turn
+            if !thorough && (i as u64) % 3 != kind {
+                continue;
+            }
+            jobs.push(("app".into(), scn_text(&gen_long_scn(&mut rng2, *c, kind))));
+        }
+    }
+    let n_new = jobs.len() - directed().len() - n;
     let nreal = if thorough { 60 } else { 12 };
     for i in 0..nreal {
         let t = 1 + (i % 4) * 2;
@@ -1403,7 +1974,7 @@ pub fn gen(out: &mut Out, thorough: bool, seed: u64) {
         let summary = o.split('|').next().unwrap_or("");
         out.count(&format!("kind={}", f));
         if let Some(s) = parse_scn(&scn) {
-            out.count(&format!("clients={}", s.clients.len()));
+            out.count(&format!("clients={}", match s.clients.len() { n @ 0..=8 => n.to_string(), 9..=64 => "9-64".into(), 65..=256 => "65-256".into(), 257..=512 => "257-512".into(), _ => ">512".into() }));
             out.count(&format!("handler_threads={}", s.threads));
             out.count(&format!(
                 "poll_us={}",
@@ -1414,6 +1985,38 @@ pub fn gen(out: &mut Out, thorough: bool, seed: u64) {
                 }
             ));
             out.count(if s.hb.is_some() { "heartbeat_on" } else { "heartbeat_off" });
+            if let Some((_, timeout)) = s.hb {
+                out.count(&format!("heartbeat_timeout_ms={}", match timeout { 0..=9 => "<10", 10..=25 => "10-25", 26..=63 => "26-63", _ => ">=64" }));
+                // where the clients' Pongs stand, and how long the clients were kept
+                for (i, c) in s.clients.iter().enumerate() {
+                    let ap = s.ap.get(i).copied().unwrap_or(0);
+                    out.count(&format!("client_pong_policy={}", ["none", "at-once", "before-message", "after-first-fragment", "before-final-fragment", "after-message", "three-at-once"][ap.min(6) as usize]));
+                    let flat: Vec<&It> = c.iter().flat_map(|i| match i { It::Rep(_, v) => v.iter().collect::<Vec<_>>(), x => vec![x] }).collect();
+                    if flat.iter().any(|i| matches!(i, It::Msg { pong: true, .. })) {
+                        out.count("clients_with_scripted_pong_between_fragments");
+                    }
+                    if flat.iter().any(|i| matches!(i, It::Pong)) {
+                        out.count("clients_with_scripted_pong_outside_messages");
+                    }
+                }
+                let hbf = o.split('|').nth(6).unwrap_or("");
+                for part in hbf.split(';').filter(|p| !p.starts_with("w=")) {
+                    let evs: Vec<&str> = part.split_once('=').map(|x| x.1.split('.').collect()).unwrap_or_default();
+                    let num = |e: &str| -> u64 { e[1..].split('-').next().and_then(|x| x.parse().ok()).unwrap_or(0) };
+                    let first = evs.first().map(|e| num(e)).unwrap_or(0);
+                    let last = evs.last().map(|e| num(e)).unwrap_or(0);
+                    let lived = (last - first.min(last)) / (timeout.max(1) * 1_000_000);
+                    let pongs = evs.iter().filter(|e| e.starts_with('L')).count().saturating_sub(1);
+                    if pongs > 0 {
+                        out.count(&format!("client_with_pongs_kept_for_timeouts={}", match lived { 0 => "<1", 1 => "1", 2 => "2", _ => ">=3" }));
+                    }
+                    if evs.last().map(|e| e.starts_with('T')).unwrap_or(false) {
+                        out.count(if pongs > 0 { "clients_timed_out_after_pongs" } else { "clients_timed_out_silent" });
+                    }
+                }
+            }
+            let longest: usize = s.clients.iter().map(|c| client_events(c).len()).max().unwrap_or(0);
+            out.count(&format!("longest_client_stream_events={}", match longest { 0..=20 => "<=20", 21..=99 => "21-99", 100..=999 => "100-999", 1000..=9999 => "1000-9999", _ => ">=10000" }));
             out.count(&format!("handlers={}", hs_text(s.hs)));
         } else if let Some((_, _, _, _, hs)) = parse_real(&scn) {
             out.count(&format!("handlers={}", hs_text(hs)));
@@ -1469,7 +2072,7 @@ pub fn gen(out: &mut Out, thorough: bool, seed: u64) {
             out.count("WEDGED");
         }
         let iters = toks.iter().filter(|t| t.starts_with('I')).count();
-        out.count(&format!("iterations_logged={}", match iters { 0 => "0", 1..=5 => "1-5", 6..=20 => "6-20", 21..=100 => "21-100", _ => ">100" }));
+        out.count(&format!("iterations_logged={}", match iters { 0 => "0", 1..=5 => "1-5", 6..=20 => "6-20", 21..=100 => "21-100", 101..=999 => "101-999", _ => ">=1000" }));
         // at least one client was admitted (the connect dispatch `c<a>` exists only with a connect handler)
         let nontrivial = toks.iter().any(|t| t.starts_with('c') || t.starts_with('a'));
         out.case(&[&f, &scn], &o, nontrivial);
@@ -1477,5 +2080,8 @@ pub fn gen(out: &mut Out, thorough: bool, seed: u64) {
     if done < jobs.len() {
         out.extra.insert("stopped_early".into(), format!("{} of {} scenarios run: {} wedged", done, jobs.len(), wedges.load(Ordering::SeqCst)));
     }
-    out.extra.insert("scenarios".into(), format!("{} ({} directed, {} random, {} real-socket)", jobs.len(), directed().len(), n, nreal));
+    out.extra.insert(
+        "scenarios".into(),
+        format!("{} ({} directed, {} random, {} heartbeat-paced / many-client / long-run, {} real-socket)", jobs.len(), directed().len(), n, n_new, nreal),
+    );
 }
